@@ -1,5 +1,15 @@
 package drive
 
+import (
+	"fmt"
+	"math"
+	"math/rand"
+	"reflect"
+
+	"github.com/honeycombio/refinery/config"
+	cq "github.com/honeycombio/refinery/verifharness/coqfmt"
+)
+
 // helpers shared by the samp family drivers (C10, C11, C12, C13, C14)
 
 func sampDedupTags(t []string) []string {
@@ -12,4 +22,137 @@ func sampDedupTags(t []string) []string {
 		}
 	}
 	return out
+}
+
+// ---- sampler definitions shared by the C12 and C13 drivers ----
+
+// sampDef describes one dynsampler-backed sampler definition: the sampler type tag used by the Coq
+// models (3 dynamic, 4 emadynamic, 5 emathroughput, 6 windowedthroughput, 7 totalthroughput),
+// integer-like parameters by Go field name (ints, uints, durations in ns, bools as 0/1), float
+// parameters by field name, and the FieldList. Unnamed parameters keep their zero value.
+type sampDef struct {
+	Type   int                `json:"type"`
+	P      map[string]int64   `json:"p,omitempty"`
+	F      map[string]float64 `json:"f,omitempty"`
+	Fields []string           `json:"fields,omitempty"`
+}
+
+func sampNewConfig(typ int) any {
+	switch typ {
+	case 3:
+		return &config.DynamicSamplerConfig{}
+	case 4:
+		return &config.EMADynamicSamplerConfig{}
+	case 5:
+		return &config.EMAThroughputSamplerConfig{}
+	case 6:
+		return &config.WindowedThroughputSamplerConfig{}
+	case 7:
+		return &config.TotalThroughputSamplerConfig{}
+	}
+	return nil
+}
+
+// sampBuild fills the real configuration struct by reflection and returns it together with the
+// parameter vector the models use: every field except FieldList, in declaration order.
+func sampBuild(d sampDef) (cfg any, params []int64, err error) {
+	cfg = sampNewConfig(d.Type)
+	if cfg == nil {
+		return nil, nil, fmt.Errorf("bad sampler type %d", d.Type)
+	}
+	v := reflect.ValueOf(cfg).Elem()
+	t := v.Type()
+	for i := 0; i < t.NumField(); i++ {
+		name := t.Field(i).Name
+		f := v.Field(i)
+		if name == "FieldList" {
+			f.Set(reflect.ValueOf(append([]string{}, d.Fields...)))
+			continue
+		}
+		switch f.Kind() {
+		case reflect.Int, reflect.Int64:
+			f.SetInt(d.P[name])
+			params = append(params, f.Int())
+		case reflect.Uint:
+			f.SetUint(uint64(d.P[name]))
+			params = append(params, int64(f.Uint()))
+		case reflect.Bool:
+			f.SetBool(d.P[name] != 0)
+			if f.Bool() {
+				params = append(params, 1)
+			} else {
+				params = append(params, 0)
+			}
+		case reflect.Float64:
+			f.SetFloat(d.F[name])
+			params = append(params, int64(math.Float64bits(f.Float())))
+		default:
+			return nil, nil, fmt.Errorf("unsupported field %s of kind %s", name, f.Kind())
+		}
+	}
+	return cfg, params, nil
+}
+
+func sampDefCoq(d sampDef) (string, error) {
+	_, params, err := sampBuild(d)
+	if err != nil {
+		return "", err
+	}
+	var fs []string
+	for _, f := range d.Fields {
+		fs = append(fs, c11Str(f))
+	}
+	return fmt.Sprintf("(Build_ddef %s %s %s)", cq.N(uint64(d.Type)), cq.ListZ(params), cq.List(fs)), nil
+}
+
+var sampFieldLists = [][]string{{"a"}, {"a", "b"}, {"b", "a"}, {"a b"}, {"svc", "status"}, {}}
+
+// one tuning parameter per sampler type that the pinned tree's registry key did not cover
+var sampTuning = map[int][]string{
+	3: {"ClearFrequency", "MaxKeys", "UseTraceLength"},
+	4: {"AdjustmentInterval", "Weight", "AgeOutValue", "BurstMultiple", "BurstDetectionDelay", "MaxKeys", "UseTraceLength"},
+	5: {"UseClusterSize", "InitialSampleRate", "AdjustmentInterval", "Weight", "AgeOutValue", "BurstMultiple", "BurstDetectionDelay", "MaxKeys", "UseTraceLength"},
+	6: {"UpdateFrequency", "LookbackFrequency", "UseClusterSize", "MaxKeys", "UseTraceLength"},
+	7: {"UseClusterSize", "ClearFrequency", "MaxKeys", "UseTraceLength"},
+}
+var sampRateName = map[int]string{3: "SampleRate", 4: "GoalSampleRate", 5: "GoalThroughputPerSec", 6: "GoalThroughputPerSec", 7: "GoalThroughputPerSec"}
+var sampFloatParams = map[string]bool{"Weight": true, "AgeOutValue": true, "BurstMultiple": true}
+var sampBoolParams = map[string]bool{"UseClusterSize": true, "UseTraceLength": true}
+
+func sampBaseDef(r *rand.Rand, typ int) sampDef {
+	d := sampDef{Type: typ, P: map[string]int64{}, F: map[string]float64{}}
+	d.P[sampRateName[typ]] = []int64{10, 10, 10, 100, 7}[r.Intn(5)]
+	if typ == 6 {
+		d.P["UpdateFrequency"] = 1e9
+		d.P["LookbackFrequency"] = 30e9
+	}
+	if typ == 4 {
+		d.F["Weight"] = 0.5
+	}
+	d.Fields = append([]string{}, sampFieldLists[r.Intn(len(sampFieldLists))]...)
+	return d
+}
+
+// sampMutate returns a copy of d that differs in exactly one tuning parameter
+func sampMutate(r *rand.Rand, d sampDef) sampDef {
+	c := sampDef{Type: d.Type, P: map[string]int64{}, F: map[string]float64{}, Fields: append([]string{}, d.Fields...)}
+	for k, v := range d.P {
+		c.P[k] = v
+	}
+	for k, v := range d.F {
+		c.F[k] = v
+	}
+	names := sampTuning[d.Type]
+	n := names[r.Intn(len(names))]
+	switch {
+	case sampFloatParams[n]:
+		c.F[n] = c.F[n] + 0.25
+	case sampBoolParams[n]:
+		c.P[n] = 1 - c.P[n]
+	case n == "UpdateFrequency" || n == "LookbackFrequency" || n == "ClearFrequency" || n == "AdjustmentInterval":
+		c.P[n] = c.P[n] + 1e9
+	default:
+		c.P[n] = c.P[n] + 1 + int64(r.Intn(5))
+	}
+	return c
 }
